@@ -50,7 +50,7 @@ def reset():
 def budget_for(data: str) -> int:
     g = data.count(">")
     r = data.count("<")
-    return min(50_000_000, 2000 + 60 * (g + 1) * (r + 1))
+    return min(50_000_000, 20000 + 1000 * (r + 1) + 300 * (g + 1) * (r + 1))
 
 
 def _on_line(code, line):
